@@ -385,3 +385,96 @@ _targets_before_purity = targets
 def targets():      # noqa: F811
     from . import purity
     return _targets_before_purity() + [purity.target_modules(["analysis/drt/tr_nnls", "analysis/drt/lm", "analysis/drt/mrq_fit", "analysis/drt/bht", "analysis/drt/tr_rbf", "analysis/drt/result", "analysis/drt/peak_analysis"], "DRT modules keep no state between calls", allowed=("_SOLVER_IMPORTED",))]
+
+
+def target_mrq_fit_circuit():
+    """calculate_drt_mrq_fit: whichever way the fitted circuit is obtained (a FitResult passed in, or two fits made here), the DRT,
+    the model impedance and the circuit stored in the result all come from THAT fitted circuit; a FitResult that belongs to another
+    circuit object is either refused or, if accepted, its own circuit is what is used -- never the unfitted one that was passed in.
+    The fits made here start from a deep copy (the caller's circuit is not what is fitted in place)."""
+    from pyvc import overload as O
+    MRQ = "analysis/drt/mrq_fit"
+    qual = "calculate_drt_mrq_fit"
+
+    def run(sess: Session):
+        for case in ("fit given, same circuit", "fit given, equal but different circuit", "no fit"):
+            used = {"tau_gamma": [], "simulate": [], "fit_circuit": [], "adjust": [], "deepcopy": []}
+
+            class Circ:
+                def __init__(self, name):
+                    self.name = name
+
+                def to_string(self, *a, **k):
+                    return "R(RC)"
+
+                def serialize(self, *a, **k):
+                    return "!V=1!R(RC)"
+
+                def __eq__(self, o):
+                    return self is o
+                __hash__ = object.__hash__
+            arg, other = Circ("argument"), Circ("fitted elsewhere")
+            fit = None if case == "no fit" else type("Fit", (), {"circuit": arg if "same" in case else other, "residuals": "RES"})()
+            made = []
+            fits = []
+
+            def fit_circuit(c, d, **kw):
+                used["fit_circuit"].append(c)
+                f = type("Fit", (), {"circuit": Circ(f"fit #{len(fits) + 1}"), "residuals": f"RES{len(fits) + 1}"})()
+                fits.append(f)
+                return f
+
+            def deepcopy(x):
+                used["deepcopy"].append(x)
+                return ("deepcopy", x)
+
+            def adjust(c, d):
+                used["adjust"].append(c)
+                return ("adjusted", c)
+
+            class Prog:
+                def __enter__(self):
+                    return self
+
+                def __exit__(self, *a):
+                    return False
+
+                def increment(self, *a, **k):
+                    pass
+
+                def set_message(self, *a, **k):
+                    pass
+            data = type("D", (), {"get_frequencies": lambda s: [1.0, 2.0], "get_impedances": lambda s: "Zexp", "get_label": lambda s: "", "get_path": lambda s: ""})()
+            ns = {"isinstance": lambda a, b: True, "hasattr": hasattr, "_is_floating": lambda x: True, "_is_integer": lambda x: True, "Progress": lambda *a, **k: Prog(), "_validate_circuit": lambda c: None,
+                  "fit_circuit": fit_circuit, "_adjust_initial_values": adjust, "deepcopy": deepcopy, "len": len, "DataSet": object, "Circuit": object,
+                  "_calculate_tau_gamma": lambda **kw: used["tau_gamma"].append(kw.get("circuit")) or ("TAU", "GAMMA"),
+                  "simulate_spectrum": lambda c, f, *a, **k: used["simulate"].append(c) or type("S", (), {"get_impedances": lambda s: "Zfit"})(),
+                  "_calculate_pseudo_chisqr": lambda **kw: "CHI", "MRQFitResult": lambda **kw: made.append(kw) or "RESULT"}
+            O.load(MRQ, [qual], ns)
+            err = None
+            try:
+                ns[qual](data, arg, fit=fit)
+            except (ValueError, TypeError) as ex:
+                err = ex
+            tag = f"[{case}]"
+            if err is not None:
+                sess.check("post", [], z3.BoolVal(case == "fit given, equal but different circuit" and not made), 0, label=f"refused only for a FitResult of another circuit object{tag}")
+                continue
+            fitted = fit.circuit if fit is not None else (fits[-1].circuit if fits else None)
+            ok = len(made) == 1 and fitted is not None
+            sess.check("post", [], z3.BoolVal(ok), 0, label=f"one result{tag}")
+            if not ok:
+                continue
+            sess.check("post", [], z3.BoolVal(used["tau_gamma"] == [fitted] and used["simulate"] == [fitted] and made[0].get("circuit") is fitted), 0,
+                       label=f"DRT, model impedance and stored circuit all come from the fitted circuit{tag}")
+            if fit is None:
+                sess.check("post", [], z3.BoolVal(len(fits) == 2 and used["fit_circuit"][0] == ("adjusted", ("deepcopy", arg)) and used["fit_circuit"][1] is fits[0].circuit and used["deepcopy"] == [arg]), 0,
+                           label=f"the first fit starts from _adjust_initial_values(deepcopy(circuit)), the second from the first fit's circuit{tag}")
+    return (f"{MRQ}:{qual}", MRQ, qual, run)
+
+
+_targets_c13_with_purity = targets
+
+
+def targets():      # noqa: F811
+    return _targets_c13_with_purity() + [target_mrq_fit_circuit()]
